@@ -87,7 +87,8 @@ def _feed_yaml(res: C.Result, groups):
             raise C.MachineryError(f"driver gave no answer for case {cid}")
         obs = blk[2]
         oc["parser_reused_after_failed_parse"] = oc.get("parser_reused_after_failed_parse", 0) + int(reused)
-        reuse = any(isinstance(b, str) for _n, b, _k in defs)
+        reuse = any(isinstance(b, str) and k != "a" for _n, b, k in defs)
+        oc["groups_with_alias_members"] = oc.get("groups_with_alias_members", 0) + int(any(k == "a" for _n, _b, k in defs))
         res.note_case((ap, repr(defs), cid.rsplit(".", 1)[1]), nontrivial=True)
         res.traces_validated += 1
         kind = ("reuse:" if reuse else "plain:") + obs.split()[1] + ("" if obs.split()[1] == "ok" else ":" + obs.split()[2])
@@ -129,7 +130,7 @@ def run(res: C.Result, deep: bool):
     for i in range(0, len(cases), 20000):
         _feed(res, cases[i:i + 20000], builts)
     # the same property through the YAML front end (field-list reuse, struct members, struct arrays)
-    groups = [(f"yd{i}", ap, g) for i, g in enumerate(L.yaml_directed()) for ap in (True, False)]
+    groups = [(f"yd{i}{'p' if ap else 'n'}", ap, g) for i, g in enumerate(L.yaml_directed()) for ap in (True, False)]
     for i in range(1500 if deep else 250):
         groups.append((f"yr{i}", rng.random() < 0.7, L.yaml_random(rng)))
     _feed_yaml(res, groups)
@@ -151,7 +152,7 @@ def run(res: C.Result, deep: bool):
 def replay(body: Dict[str, Any]) -> int:
     case = body.get("case") or (body.get("first_corr_diff") or {}).get("case")
     if case and "yaml_group" in case:
-        defs = [(n, b if isinstance(b, str) else [tuple(m) for m in b], k) for n, b, k in case["yaml_group"]]
+        defs = [(n, b if isinstance(b, (str, int)) else [tuple(m) for m in b], k) for n, b, k in case["yaml_group"]]
         bad = 0
         for cid, blk in L.run_yaml_group("replay", case["auto_pad"], defs, bool(case.get("parser_reused"))):
             out = C.run_driver("layout", blk)
